@@ -11,6 +11,8 @@ def seeded_table():
         name = os.path.basename(os.path.dirname(f))
         hit = ", ".join(f"{k} ({v['seconds']} s)" for k, v in m["checks_quick"].items() if v["exit"] == 1)
         miss = ", ".join(k for k, v in m["checks_quick"].items() if v["exit"] != 1) or "–"
+        if not hit and m.get("caught_by_thorough"):
+            hit = "none in the quick tier; thorough: " + ", ".join(f"{k} ({v['seconds']} s)" for k, v in m["checks_thorough"].items() if v["exit"] == 1)
         rows.append(f"| {name} | {m['breaks_property']} | {m['needs_to_manifest']} | {hit or '**none**'} | {miss} |")
     return "\n".join(rows)
 
